@@ -151,6 +151,12 @@ func runTQ(c *core.Ctx, own tqOwner, g tqGen) {
 	}
 	c.Set("action_coverage", cov)
 
+	// 1b. liveness on the smallest configuration, under fairness of the queue's own steps, of the caller
+	// eventually calling Wait and of the environment eventually answering: Wait returns, every Add returns
+	rl := c.TLC(core.TLCOpts{Module: "TransferQueue", Cfg: "TQ_live.cfg", Workers: 6, Timeout: 20 * time.Minute, HeapGB: 8})
+	c.MustPass(rl, "TransferQueue liveness (TQ_live.cfg)")
+	c.Set("liveness_states", rl.Distinct)
+
 	// 2. non-vacuity: the transcription of the pinned (pre-repair) code must violate the invariants
 	rp := c.TLC(core.TLCOpts{Module: "TransferQueue", Cfg: g.pinned, Workers: 4, Timeout: 10 * time.Minute})
 	if rp.Violated == "" {
